@@ -44,10 +44,14 @@ class Lock:
 
 
 def src_hash(extra=""):
+    """key of the suite cache: every source file of /repo, and the part of /verif a suite result can depend on -- the suite drivers,
+    generators and translators (not the per-property modules and search probes, which are never cached) and the Coq modules the
+    generated case files import (Num, Model, Corr, Gen, Spec; not Theory / Props, which only hold proofs)"""
     h = hashlib.sha256()
     files = sorted(glob.glob(os.path.join(REPO, "src/pyfvtool/*.py")))
-    files += sorted(glob.glob(os.path.join(VERIF, "tools/**/*.py"), recursive=True))
-    files += sorted(f for f in glob.glob(os.path.join(COQ, "*/*.v")))
+    files += sorted(glob.glob(os.path.join(VERIF, "tools/suites/*.py")))
+    files += sorted(os.path.join(VERIF, "tools", f) for f in ("lib.py", "gen.py", "common.py", "tr_builders.py", "tr_limiters.py"))
+    files += sorted(f for d in ("Num", "Model", "Corr", "Gen", "Spec") for f in glob.glob(os.path.join(COQ, d, "*.v")))
     for f in files:
         h.update(f.encode()); h.update(open(f, "rb").read())
     h.update(extra.encode())
